@@ -68,18 +68,32 @@ func (h *ServerHandler) handleUserCommand(ctx context.Context, ltx lcontext.LCon
 		}
 	}
 
+	// A mapreduce aggregation must not conclude that there is no more input
+	// for as long as a read command of the session is still to register files.
+	readFinished := commandFinished
+	if aggregate := h.aggregate; aggregate != nil {
+		switch commandName {
+		case "grep", "cat", "tail":
+			aggregate.Expect()
+			readFinished = func() {
+				aggregate.Done()
+				commandFinished()
+			}
+		}
+	}
+
 	switch commandName {
 	case "grep", "cat":
 		command := newReadCommand(h, omode.CatClient)
 		go func() {
 			command.Start(ctx, ltx, argc, args, 1)
-			commandFinished()
+			readFinished()
 		}()
 	case "tail":
 		command := newReadCommand(h, omode.TailClient)
 		go func() {
 			command.Start(ctx, ltx, argc, args, 10)
-			commandFinished()
+			readFinished()
 		}()
 	case "map":
 		command, aggregate, err := newMapCommand(h, argc, args)
